@@ -170,6 +170,24 @@ func (s *Stack) Resolve(expr string) (any, bool) {
 	}
 	// walk the rest
 	for _, p := range parts[1:] {
+		if strings.HasPrefix(p, dynamicStep) {
+			name := p[len(dynamicStep):]
+			if v, ok := s.Resolve(name); ok && v != nil {
+				// the variable's value is the index or key
+				cur = s.resolveStep(cur, fmt.Sprint(v))
+			} else {
+				// no such variable: the text itself is the key (m[key] as another spelling of m.key)
+				for _, q := range strings.Split(name, ".") {
+					if q = strings.TrimSpace(q); q != "" && cur != nil {
+						cur = s.resolveStep(cur, q)
+					}
+				}
+			}
+			if cur == nil {
+				return nil, false
+			}
+			continue
+		}
 		cur = s.resolveStep(cur, p)
 		if cur == nil {
 			return nil, false
@@ -383,6 +401,19 @@ func (s *Stack) ForEach(expr string, fn func(index int, value any) error) error 
 
 // Helpers
 
+// dynamicStep marks a path step whose text is the name of a variable holding the actual
+// index or key (the unquoted, non-numeric content of a bracket).
+const dynamicStep = "\x00"
+
+// isVariableIndex reports whether the content of a bracket is a name (not a number).
+func isVariableIndex(inside string) bool {
+	if inside == "" {
+		return false
+	}
+	c := inside[0]
+	return c == '_' || c == '$' || (c >= 'a' && c <= 'z') || (c >= 'A' && c <= 'Z') || c >= 0x80
+}
+
 // splitPathImpl is the actual implementation of path splitting.
 // Called by getCachedPath which caches the results.
 func splitPathImpl(expr string) []string {
@@ -434,6 +465,10 @@ func splitPathImpl(expr string) []string {
 			if inside = inside[1 : len(inside)-1]; inside != "" {
 				out = append(out, inside)
 			}
+		} else if isVariableIndex(inside) {
+			// items[i], m[key]: the content names a variable whose value is the index / key;
+			// resolved when the path is walked (see Resolve)
+			out = append(out, dynamicStep+inside)
 		} else {
 			addDotted(inside)
 		}
